@@ -5,7 +5,7 @@ import re
 from concurrent.futures import ThreadPoolExecutor
 import vcheck as V
 
-OPK = {1: "Process", 2: "Reopen", 3: "ExtRename", 4: "Pause", 5: "RemoveDirFromOutside", 6: "RemoveActiveFileFromOutside"}
+OPK = {1: "Process", 2: "Reopen", 3: "ExtRename", 4: "Pause", 5: "RemoveDirFromOutside", 6: "RemoveActiveFileFromOutside", 7: "DirectoryEventOrder"}
 
 # which mismatch kinds speak about which property (see Run_FileSink.kind)
 # C08 speaks about the acknowledged events being in the files, whole, once, in order, minus a prefix removed by retention:
@@ -13,8 +13,8 @@ OPK = {1: "Process", 2: "Reopen", 3: "ExtRename", 4: "Pause", 5: "RemoveDirFromO
 # boundaries fall and HOW MUCH retention removes (KFiles, KRead, KOk of a failed rotation, KBw, KLc …) is C15's business: a
 # sink that rotates one write late still satisfies C08, so those mismatches are ignored by C08's check.
 RELEVANT = {
-    "C08": {"KStd", "KTorn", "KSuffix", "KLoss", "KOrder", "KCrash"},
-    "C15": {"KOk", "KRead", "KFiles", "KMode", "KBw", "KLc", "KDir", "KForeign", "KModeSpec", "KDirSpec", "KActive", "KNoRot", "KStray", "KCrash"},
+    "C08": {"KStd", "KTorn", "KSuffix", "KLoss", "KOrder", "KCrash", "KPruneOrder"},
+    "C15": {"KOk", "KRead", "KFiles", "KMode", "KBw", "KLc", "KDir", "KForeign", "KModeSpec", "KDirSpec", "KActive", "KNoRot", "KStray", "KCrash", "KStampOrder", "KPruneOrder"},
 }
 WHAT = {
     "KOk": "the acknowledgement (nil / error) of the call differs from the model",
@@ -34,13 +34,15 @@ WHAT = {
     "KActive": "the name of the active file contradicts TimestampOnlyOnRotate / the rotation settings",
     "KNoRot": "a rotated file appeared although neither MaxBytes nor MaxDuration is set",
     "KStray": "the sink created a file outside its configured name space (neither FileName nor <stem>-<stamp><ext>)",
+    "KStampOrder": "concurrent callers: a file that appeared later in the directory (kernel event order = order of the sink's critical sections) carries a stamp that is not larger — the stamp was not read inside the critical section",
+    "KPruneOrder": "concurrent callers: retention removed a file although an older-created rotated file is still there (the survivors are not the most recently created)",
     "KCrash": "the directory left behind by SIGKILL is neither the state after the last acknowledged call nor one of the model's crash points of the next call",
 }
 
 ARGS = {
     ("C08", "quick"): ["-modes", "seq,timed,special,conc,kill,fsize", "-seq", "700", "-timed", "120", "-conc", "200", "-kill", "24", "-fsize", "24"],
     ("C08", "thorough"): ["-modes", "seq,timed,special,conc,kill,fsize", "-seq", "5000", "-timed", "800", "-conc", "600", "-kill", "150", "-fsize", "150", "-len", "30"],
-    ("C15", "quick"): ["-modes", "seq,timed,seqrm,special", "-seq", "700", "-timed", "180", "-seqrm", "200"],
+    ("C15", "quick"): ["-modes", "seq,timed,seqrm,special,conc", "-seq", "600", "-timed", "150", "-seqrm", "150", "-conc", "100"],
     ("C15", "thorough"): ["-modes", "seq,timed,seqrm,special,conc,kill", "-seq", "6000", "-timed", "1500", "-seqrm", "1500", "-conc", "200", "-kill", "60", "-len", "30"],
 }
 
@@ -50,7 +52,9 @@ ASSUMPTIONS = [
     "clock readings strictly increase (hypothesis clock_ok of the theorems; with equal readings os.Rename would overwrite an earlier rotated file); "
     "nanosecond stamps of one sink have equal length, so sort.Strings orders them numerically",
     "one write(2) of a whole event on an O_APPEND descriptor is atomic, also under SIGKILL (OS assumption; the kill generator samples it)",
-    "each Process / Reopen is atomic with respect to the others because it holds FileSink.l (lock discipline: C19)",
+    "each Process / Reopen is atomic with respect to the others because it holds FileSink.l (lock discipline: C19); every clock reading of a call is taken "
+    "inside that critical section (this is what makes clock_ok — readings increase in the order of the critical sections — true of the code; the concurrent generator "
+    "checks it on the directory's inotify event order: KStampOrder / KPruneOrder)",
     "deletion of the directory / the active file from outside is not an operation of the histories the C08/C15 history theorems quantify over "
     "(FileSink.xop); such histories are generated for C15's 'directory created on demand' only and C08's oracles are switched off from the first deletion on",
     "MaxFiles >= 0 (a negative MaxFiles makes pruneFiles index out of range; outside the quantifier)",
